@@ -63,18 +63,32 @@ def sources(tier, seed, ctx):
             s['shape'] = P.SHAPES[k % len(P.SHAPES)]
             k += 1
             srcs.append(s)
+    # deep circuits through pipelines of every shape
+    for depth in ([1500] if tier == 'quick' else [1500, 4000]):
+        for j, shape in enumerate(P.SHAPES):
+            srcs.append({'k': 'deep', 'depth': depth, 'pass': 'pipeline', 'leaves': [['MDG', 'MUO'], ['MUO', 'RRG', 'MDG'], ['MEG', 'MUO']][j % 3],
+                         'shape': shape, 'rev': bool(j % 2)})
     return srcs
 
 
 def record(src):
+    if src.get('k') == 'deep':
+        from .. import deep
+        return deep.transform_case(PROP, 'pipeline-' + src['shape'], src, lambda c: P.run_pass('pipeline', c, src['leaves'], src['shape']),
+                                   types=('NOT', 'XOR', 'NOT', 'NOT', 'AND', 'XOR'))
     return P.record_pass(src, PROP)
 
 
 def nontrivial(case):
+    if case['kind'] == 'transformdeep':
+        return True
     return any(g['t'] != 'INPUT' for g in case['pre']['g'].values())
 
 
 def features(case):
+    if case['kind'] == 'transformdeep':
+        yield 'deep:' + case['what']
+        return
     yield from P.pass_features(case)
     if case['pass'] == 'pipeline':
         yield 'shape-' + case['shape']
